@@ -526,6 +526,17 @@ func Gen(r *sim.Rng, kind string) (*sim.WorldSpec, *Meta) {
 			h := &HookMeta{DstPtr: r.Chance(2, 3), SrcPtr: r.Bool(), RetErr: mm.RetErr && r.Chance(2, 3), Extras: len(mm.Extras) > 0 && r.Chance(2, 3)}
 			h.Imported = useHooksPkg && !mm.Local && r.Chance(1, 2)
 			fn := fmt.Sprintf("%s%s", map[string]string{"pre": "Pre", "post": "Post"}[which], mm.Name)
+			// names are identifiers, not just letters and digits
+			switch r.Intn(8) {
+			case 0:
+				fn = fmt.Sprintf("%s_%s", map[string]string{"pre": "Pre", "post": "Post"}[which], mm.Name)
+			case 1:
+				fn = fmt.Sprintf("%s%s_2nd", map[string]string{"pre": "Pre", "post": "Post"}[which], mm.Name)
+			case 2:
+				if !h.Imported {
+					fn = fmt.Sprintf("_%s%s", map[string]string{"pre": "pre", "post": "post"}[which], mm.Name)
+				}
+			}
 			// now and then a local and an imported hook share their base name
 			mine, other := usedLocalHooks, usedImportedHooks
 			if h.Imported {
@@ -533,7 +544,7 @@ func Gen(r *sim.Rng, kind string) (*sim.WorldSpec, *Meta) {
 			}
 			var cands []string
 			for n := range other {
-				if !mine[n] {
+				if !mine[n] && !(h.Imported && (n[0] == '_' || (n[0] >= 'a' && n[0] <= 'z'))) {
 					cands = append(cands, n)
 				}
 			}
